@@ -1081,7 +1081,8 @@ impl<'a> World<'a> {
                     0 | 1 => String::new(),
                     2 => "a and".into(),
                     3 => "(((".into(),
-                    4 | 5 => self.filter_from_live_data(),
+                    // (a live Ref or Symbol may carry a NUL, which a C string cannot: both sides get the text without it)
+                    4 | 5 => self.filter_from_live_data().replace('\0', ""),
                     _ => {
                         let f = crate::reffilter::gen_or(&mut self.rng, 1, true);
                         crate::reffilter::print_filter(&mut self.rng, &f, false).replace('\0', "")
